@@ -51,6 +51,7 @@ type hHandler struct {
 	Params       []hParam `json:"params"`
 	ReturnsValue bool     `json:"returnsValue"`
 	RespCheck    string   `json:"respCheck"` // validity of the zero value under validateResponsePayload: valid | invalid | unknown
+	EnumStrict   bool     `json:"enumStrict"` // experimentalConfig.validateTopLevelOnlyEnum
 }
 
 type vToken struct {
@@ -1182,7 +1183,7 @@ func routerTrace(args []string) error {
 					canonArgs = append(canonArgs, strings.ReplaceAll(a, unicodeSample, "<U1>"))
 				}
 				ev := map[string]any{"ev": "Run", "probe": rq.Probe, "target": h.Ctrl + "." + h.Method, "toks": toks, "script": script, "fail": rq.Fail, "sameErr": rq.SameErr, "setStatus": rq.SetStatus, "stopAt": rq.StopAt,
-					"handler": map[string]any{"alts": alts, "params": params, "returnsValue": h.ReturnsValue, "respCheck": respCheckOf(h)},
+					"handler": map[string]any{"alts": alts, "params": params, "returnsValue": h.ReturnsValue, "respCheck": respCheckOf(h), "enumStrict": h.EnumStrict},
 					"obs": map[string]any{"auth": auth, "invoked": invoked, "target": target, "args": canonArgs, "status": res.Status, "panicked": panicked, "mw": mw}}
 				fmt.Fprintln(f, mustJSON(ev))
 				fmt.Fprintf(fi, "%s %d %s\n", rec.ID, rq.Rid, res.Engine)
